@@ -121,6 +121,9 @@ pub struct EvMeta {
     pub step: u32,
     /// a capture that snapshots a `let` name
     pub snap: bool,
+    /// async macros: a synchronous expression of a branch's step-0 chain that is evaluated while the chain is BUILT, i.e.
+    /// before the step's joiner polls anything (initial value, synchronous prefix)
+    pub eager: bool,
 }
 
 #[derive(Clone, Copy, Debug, PartialEq, Eq)]
